@@ -114,6 +114,12 @@ def h07(c, U=3, R=1, other_market=False, suspensions=False, real_time_error=Fals
                         ot, otms = c.time_ms("ot%d" % k, cm.T0_MS, cm.T0_MS + 10**8)
                         c.assume(c.And(otms >= times[k - 1][1], otms <= times[k][1]))
                         ob = cm.book([cm.runner(1)], market_id=MID2, version=1, pt=ot, pt_ms=otms)
+                        if state.get("other_seen") and c.choose("other_market_closes%d" % k, [False, True]):
+                            # the other market of the event group closes while a request for this market is still in flight
+                            ob.status = "CLOSED"
+                            ob.runners[0].status = "WINNER"
+                            c.cover("other-market-closed")
+                        state["other_seen"] = True
                         state["k"] = ("other", k)
                         fl._process_market_books(events.MarketBookEvent([ob]))
                         state["k"] = k
@@ -192,6 +198,6 @@ HARNESSES = [
             requires=["run", "executed", "suspended-update"], outside=OUT, max_paths=(300000, 3000000), wall_s=(300, 3000)),
     Harness("H07-rt", h07, quick=dict(U=3, R=1, real_time_error=True), pattern="P3 with symbolic time", requires=["run", "executed"], outside=OUT),
     Harness("H07-2mkt", h07, quick=dict(U=3, R=1, other_market=True), thorough=dict(U=5, R=1, other_market=True), pattern="P3 with symbolic time",
-            requires=["run", "executed", "other-market-update"], outside=OUT, max_paths=(300000, 3000000), wall_s=(300, 3000)),
+            requires=["run", "executed", "other-market-update", "other-market-closed"], outside=OUT, max_paths=(300000, 3000000), wall_s=(300, 3000)),
 ]
 META = {"assumptions": ["publish times: integer milliseconds, strictly increasing, gaps 1 ms .. 10 min; latencies every 0.001 s value in [0, 5]; bet delay 0..12"]}
